@@ -91,6 +91,9 @@ TopicEvent == Ev("$e", "m.room.topic", UA, TRUE, "", C0)
 \* the same type sent without a state key is a message-like event: `events[type]` or `events_default`
 TopicAsMessage == Ev("$e", "m.room.topic", UA, FALSE, "", C0)
 TpiEvent == Ev("$e", "m.room.third_party_invite", UA, TRUE, "tok9", C0)
+\* m.room.aliases with the sender's server as state key: room versions 1-5 allow it whatever the levels (rule 4), later versions
+\* treat it like any state event.  The helpers take no room version.
+AliasesEvent == Ev("$e", "m.room.aliases", UA, TRUE, UA.server, C0)
 
 Specified == StateWellFormed(St, R)
 Iff(h, verdict) == (h /\ verdict = "allow") \/ (~h /\ verdict = "reject")
@@ -106,6 +109,7 @@ Equiv ==
     /\ Iff(HCanSendState(EPL, UA.name, "m.room.topic"), Allowed(TopicEvent))
     /\ Iff(HCanSendMessage(EPL, UA.name, "m.room.topic"), Allowed(TopicAsMessage))
     /\ Iff(HCanSendState(EPL, UA.name, "m.room.third_party_invite"), Allowed(TpiEvent))
+    /\ (~R.aliases_special => Iff(HCanSendState(EPL, UA.name, "m.room.aliases"), Allowed(AliasesEvent)))
     /\ (HCanNotifyRoom(EPL, UA.name) <=> NotifPermission(EPL, UA.name))
     /\ HForUser(EPL, UA.name) = UserLevel(St, UA, R)
     /\ HForUser(EPL, UB.name) = UserLevel(St, UB, R)
@@ -122,6 +126,7 @@ Emit == phase = 1 =>
      msg |-> HCanSendMessage(EPL, UA.name, "m.room.message"), topic |-> HCanSendState(EPL, UA.name, "m.room.topic"),
      topicmsg |-> HCanSendMessage(EPL, UA.name, "m.room.topic"), tpi |-> HCanSendState(EPL, UA.name, "m.room.third_party_invite"),
      a_topicmsg |-> Allowed(TopicAsMessage), a_tpi |-> Allowed(TpiEvent),
+     aliases |-> HCanSendState(EPL, UA.name, "m.room.aliases"), a_aliases |-> Allowed(AliasesEvent), aliases_special |-> R.aliases_special,
      notif |-> HCanNotifyRoom(EPL, UA.name), la |-> HForUser(EPL, UA.name), lb |-> HForUser(EPL, UB.name),
      a_ban |-> Allowed(MemberEvent("ban")), a_leave |-> Allowed(MemberEvent("leave")),
      a_invite |-> Allowed(MemberEvent("invite")), a_msg |-> Allowed(MsgEvent), a_topic |-> Allowed(TopicEvent) ])>>)
